@@ -20,7 +20,7 @@ RULE = (
 ASSUMPTIONS = ["float64, integer leaf values perturbed to generic reals; tolerance 1e-7 relative for direct paths, 1e-5 for CG / Lanczos / contour-integral paths",
                "the stochastic log-determinant gradient (probe variance) is not compared; logdet gradients are checked on the deterministic paths"]
 CHUNK = 6
-CASE_TIMEOUT = 900
+CASE_TIMEOUT = 3600
 DT = torch.float64
 
 SKIP_HEADS = {"Zero", "Identity", "Perm", "TransposePerm"}
